@@ -34,7 +34,7 @@ claim("C13", "Coq proof (parser-extension lemma de_ext + fuel lemmas => suffix g
 claim("C14", "Coq proof (tag constants regenerated from source pinned to 98/18/96/16/97/17; tagged decode iff tag applied once to an accepted body, all tag-head widths; known boundary class depth=256 proved as refutation) + (type x tag x width x body) matrix on implementation and model",
       "Theorems: tagged encoding = head(6,tag) ++ untagged encoding; tagged decoding accepts iff the item is that tag applied once to an item the untagged converter accepts (other tag / untagged / doubly tagged rejected; untagged decoders reject every tagged item); byte-level equivalence for every tag-head width under the explicit proviso that the body decodes within 255 nesting levels, with a proved witness that the proviso is necessary (known finding F5).",
       COMMON_NOTE, "DESIGN.md 7 (C14), 8 (F5)")
-claim("C15", "Coq proof (each narrowing site = explicit range test; every head width and bignum spelling decodes to the same integer; encode/decode exact) + boundary-lattice correspondence at every interpreting position",
+claim("C15", "Coq proof (each narrowing site = explicit range test; every head width and bignum spelling decodes to the same integer; encode/decode exact), one known class (out-of-range error masked for signatures nested in COSE_Sign, witness proved) + boundary-lattice correspondence at every interpreting position, also inside nested carriers with the exact error kind",
       "Theorems over all integers: label / registry label / timestamp / nonce decode exactly iff in the i64 range and give OutOfRangeIntegerValue otherwise, key-data-length likewise for u64; byte level: all head widths and both bignum spellings of an integer decode to the same value, and every CBOR integer round-trips. The implementation is run on the +-1 lattice around 0, 23/24, 2^8, 2^16, 2^32, 2^63, 2^64 in every width at every interpreting position with exact expected outcomes computed independently.",
       COMMON_NOTE, "DESIGN.md 7 (C15)")
 
